@@ -315,3 +315,60 @@ def ob_eviction_recompletion(m: int, o0: int, o1: int, o2: int, o3: int, o4: int
 
 
 RE_N = B(5, 6)
+
+
+# ------------------------------------------------------------------------------------------------ the idle marker can be set AND cleared
+
+
+@obligation(quick=150, thorough=400, partitions_quick=[f"o0 == {a}" for a in range(5)], partitions_thorough=[f"o0 == {a} and o1 == {b}" for a in range(5) for b in range(5)],
+            what="idle marker life cycle on one handler: scripts of 3 (thorough 4) ops over {upsert idle / upsert not idle / update_handler_status("
+                 "idle_since=t) / update_handler_status(idle_since=None) / update_handler_status(status only: marker untouched)}: after every op "
+                 "query(is_idle=True) and query(is_idle=False) give the same answer on SQLite, on the memory store and in the model, and a delete "
+                 "filtered on is_idle removes exactly the matching handler",
+            bounds={"ops": "3 (quick) / 4 (thorough) from 5 op codes", "final delete": "is_idle True / False"})
+def ob_idle_marker_lifecycle(o0: int, o1: int, o2: int, o3: int, del_idle: bool) -> bool:
+    """
+    pre: 0 <= o0 <= 4 and 0 <= o1 <= 4 and 0 <= o2 <= 4 and 0 <= o3 <= 4 and (IDLE_N >= 4 or o3 == 0)
+    post: _
+    """
+    ops = [pick_int(o, 0, 4) for o in (o0, o1, o2, o3)][:IDLE_N]
+    del_idle = True if del_idle else False
+    idle = False          # model: the marker of handler h0 (created not idle)
+    with TmpDir() as tmp:
+        sq = SqliteWorkflowStore(os.path.join(tmp, "s.db"))
+        mem = MemoryWorkflowStore()
+        stores = (sq, mem)
+        for st in stores:
+            drive(st.update(PersistentHandler(handler_id="h0", workflow_name="w", status="running", run_id="r0")))
+            drive(st.update(PersistentHandler(handler_id="h9", workflow_name="w", status="running", run_id="r9", idle_since=T0)))  # a bystander that stays idle
+        for o in ops:
+            for st in stores:
+                if o == 0:
+                    drive(st.update(PersistentHandler(handler_id="h0", workflow_name="w", status="running", run_id="r0", idle_since=T0)))
+                elif o == 1:
+                    drive(st.update(PersistentHandler(handler_id="h0", workflow_name="w", status="running", run_id="r0", idle_since=None)))
+                elif o == 2:
+                    drive(st.update_handler_status("r0", idle_since=T0))
+                elif o == 3:
+                    drive(st.update_handler_status("r0", idle_since=None))
+                else:
+                    drive(st.update_handler_status("r0", status="running"))
+            if o in (0, 2):
+                idle = True
+            elif o in (1, 3):
+                idle = False
+            for st in stores:
+                yes = sorted(h.handler_id for h in drive(st.query(HandlerQuery(is_idle=True))))
+                no = sorted(h.handler_id for h in drive(st.query(HandlerQuery(is_idle=False))))
+                if yes != (["h0", "h9"] if idle else ["h9"]) or no != ([] if idle else ["h0"]):
+                    return False
+        for st in stores:
+            n = drive(st.delete(HandlerQuery(status_in=["running"], is_idle=del_idle)))
+            left = sorted(h.handler_id for h in drive(st.query(HandlerQuery())))
+            gone = (["h0", "h9"] if idle else ["h9"]) if del_idle else ([] if idle else ["h0"])
+            if n != len(gone) or left != sorted(x for x in ("h0", "h9") if x not in gone):
+                return False
+    return True
+
+
+IDLE_N = B(3, 4)
